@@ -684,3 +684,101 @@ func VerifChunkFrozen(pushes int, snapAt []int, tail int) (atTime [][][]int32, a
 	}
 	return
 }
+
+// VerifSearch is one search served while the input was still being loaded.
+type VerifSearch struct {
+	Query  string
+	Count  int     // items in the snapshot the search was started on
+	Idx    []int32 // matched item indices in result order
+	Frozen bool    // the snapshot read the same after the search as before
+}
+
+// VerifConcurrent loads the lines from one goroutine while the calling goroutine keeps taking
+// snapshots and running searches through the real Matcher loop (shared chunk cache, pattern
+// cache and merger cache). The last searches run after loading has finished.
+func VerifConcurrent(lines []string, queries []string, sort bool, tac bool, yield int) []VerifSearch {
+	sortCriteria = []criterion{byScore, byLength}
+	cache := NewChunkCache()
+	var idx int32
+	cl := NewChunkList(cache, func(item *Item, data []byte) bool {
+		item.text = util.ToChars(data)
+		item.text.Index = idx
+		idx++
+		return true
+	})
+	eventBox := util.NewEventBox()
+	m := verifMatcher(cache, eventBox, sort, tac)
+	go m.Loop()
+	done := make(chan struct{})
+	go func() {
+		for i, l := range lines {
+			cl.Push([]byte(l))
+			if yield > 0 && i%yield == 0 {
+				time.Sleep(50 * time.Microsecond)
+			}
+		}
+		close(done)
+	}()
+	read := func(snap []*Chunk) []int32 {
+		is := []int32{}
+		for _, c := range snap {
+			for k := 0; k < c.count; k++ {
+				is = append(is, c.items[k].Index())
+			}
+		}
+		return is
+	}
+	out := []VerifSearch{}
+	search := func(q string, final bool) bool {
+		snapshot, count, _ := cl.Snapshot(0)
+		before := read(snapshot)
+		m.Reset(snapshot, []rune(q), true, final, sort, revision{})
+		got := make(chan *Merger, 1)
+		go func() {
+			eventBox.Wait(func(events *util.Events) {
+				for evt, val := range *events {
+					if evt == EvtSearchFin {
+						got <- val.(*Merger)
+					}
+				}
+				events.Clear()
+			})
+		}()
+		select {
+		case mg := <-got:
+			res := []int32{}
+			for i := 0; i < mg.Length(); i++ {
+				res = append(res, mg.Get(i).item.Index())
+			}
+			after := read(snapshot)
+			frozen := len(before) == count && len(after) == len(before)
+			for i := 0; frozen && i < len(after); i++ {
+				frozen = after[i] == before[i]
+			}
+			out = append(out, VerifSearch{q, count, res, frozen})
+			return true
+		case <-time.After(5 * time.Second):
+			eventBox.Set(EvtQuit, nil)
+			return false
+		}
+	}
+	loading := true
+	for k := 0; loading && k < 64; k++ {
+		select {
+		case <-done:
+			loading = false
+		default:
+			if !search(queries[k%len(queries)], false) {
+				loading = false
+			}
+		}
+	}
+	<-done
+	for _, q := range queries {
+		if !search(q, true) {
+			break
+		}
+	}
+	m.Stop()
+	return out
+}
